@@ -486,11 +486,6 @@ End NjPartial.
 
 (* ------------------------------------------------------------------ *)
 (* boolean versions, for concrete instances *)
-Definition metric_cherryb (m : mat) (n a b : nat) : bool :=
-  forallb (fun k => forallb (fun l =>
-    Nat.eqb k a || Nat.eqb k b || Nat.eqb l a || Nat.eqb l b
-    || Qeq_bool (dm m a k - dm m b k) (dm m a l - dm m b l)) (seq 0 n)) (seq 0 n).
-
 Lemma metric_cherryb_spec m n a b : metric_cherryb m n a b = true -> metric_cherry m n a b.
 Proof.
   unfold metric_cherryb, metric_cherry. rewrite forallb_forall. intros H k l Hk Hl Nka Nkb Nla Nlb.
@@ -499,20 +494,6 @@ Proof.
   apply Nat.eqb_neq in Nka, Nkb, Nla, Nlb. rewrite Nka, Nkb, Nla, Nlb in H. cbn [orb] in H.
   apply Qeq_bool_iff. exact H.
 Qed.
-
-Fixpoint picks_cherriesb (fuel : nat) (st : njstate) : bool :=
-  match fuel with
-  | O => true
-  | S f =>
-      match nj_step st with
-      | Some (_, st') =>
-          match first_min (nj_scores (nj_m st) (length (nj_cls st))) with
-          | Some ((a, b), _) => metric_cherryb (nj_m st) (length (nj_cls st)) a b
-          | None => true
-          end && picks_cherriesb f st'
-      | None => true
-      end
-  end.
 
 Lemma picks_cherriesb_spec fuel : forall st, picks_cherriesb fuel st = true -> picks_cherries fuel st.
 Proof.
